@@ -2,3 +2,5 @@ pub mod e1;
 pub mod refs;
 pub mod report;
 pub mod e6;
+pub mod c13live;
+pub mod c14live;
